@@ -52,18 +52,6 @@ Fixpoint vall {A} (f : A -> iverdict) (l : list A) : iverdict :=
   end.
 
 (* ------------------------------------------------------------------ immediates *)
-(* "-1" .. "-128" (and "-0") as the assembler's signed-byte immediate *)
-Definition neg_int8 (s : string) : bool :=
-  match list_ascii_of_string s with
-  | c :: rest =>
-      Ascii.eqb c "-" &&
-      match N_of_dec (string_of_list_ascii rest) with
-      | Some k => (k <=? 128)%N
-      | None => false
-      end
-  | [] => false
-  end.
-
 Definition check_gfield (version : N) (app : bool) (g : fgroup) (name : string) : iverdict :=
   match find_gfield (ls_group_fields g) name with
   | None => VBad "field-unknown" name
@@ -97,8 +85,9 @@ Definition bytes_const_ok (b : bytes) : bool := (blen b <=? MAX_BYTES_CONST)%N.
 Definition imm1 (version : N) (app : bool) (k : immkind) (i : imm) : iverdict :=
   match k, i with
   | K_uint8, IInt n => if (n <? 256)%N then VOk else VBad "imm-range" (N_to_dec n)
-  | K_int8, IInt n => if (n <? 128)%N then VOk else VBad "imm-range" (N_to_dec n)
-  | K_int8, IName s => if neg_int8 s then VOk else VBad "imm-range" s
+  (* AVM/Parse.v reads frame_dig / frame_bury immediates -128..127 into two's complement 0..255 and
+     refuses anything else (reported as "parse") *)
+  | K_int8, IInt n => if (n <? 256)%N then VOk else VBad "imm-range" (N_to_dec n)
   | K_label, IName _ => VOk
   | K_txnfield s _, IName f => check_tfield version app s f
   | K_field g, IName f => check_gfield version app g f
